@@ -158,16 +158,30 @@ _c("C06",
    "handler rows generated from the source; permutation invariance of the constructor and agreement on the scalar fragment) + executable documented-reading spec and model/implementation correspondence "
    "in vm_compute")
 _c("C07",
-   "Coq theorems (Props/C07.v, closed under the global context) over the executable model of mapper aggregation (Ser/Mappers.v): "
-   "for any mapper list the aggregated mapper equals the declarative left-to-right rename chain (C07_agg_is_chain, induction over "
-   "the list; hypothesis chain_ok characterises the code's same-entry shortcut), nested ._mapper entries (C07_nested_mapper), the "
-   "serialized key set at a level is exactly the image of the populated non-dropped fields (C07_keys_exact, _nested), DoNotSerialize "
-   "fields absent, collisions only via the mapper, the lookup half of the round trip (C07_roundtrip_lookup_partial), wrapper "
-   "construction rejects non-field keys; refutation witnesses where the full statement is false of the faithful model. Aggregated "
-   "dicts, documents and deserializations are compared with typedpy inside Coq on all mapper assignments of depth <= 3.",
-   "Trusted: Coq kernel + vm_compute; Ser/Mappers.v hand-written (single inheritance, Integer fields, identity value serialization); "
-   "harness generator; CPython. Full round trip composed with deser_struct is covered by the correspondence and real ==.",
-   "Coq proof (induction over mapper chains and nesting) + model/implementation correspondence in vm_compute")
+   "Coq theorems (Props/C07.v, closed under the global context) over the executable model of mapper aggregation and of the key "
+   "handling of serialize_internal / construct_fields_map (Ser/Mappers.v): for any mapper list the aggregated mapper (both "
+   "directions) equals the declarative left-to-right rename chain (C07_agg_is_chain, induction over the list; hypothesis chain_ok "
+   "characterises the code's same-entry shortcut), nested ._mapper entries on the serialization side (C07_nested_mapper) and on "
+   "the deserialization side, where the entry travels with the field's current key and is the one construct_fields_map looks up "
+   "first (C07_nested_mapper_deser, with a witness that the other lookup order hands a field its sibling's mapper), the serialized "
+   "key set at a level is exactly the image of the populated non-dropped fields (C07_keys_exact, _nested), DoNotSerialize fields "
+   "absent, collisions only via the mapper, the COMPLETE round trip through the model of deserialize_structure_internal for classes "
+   "of scalar fields under any declared/explicit mapper list and camel_case_convert (C07_roundtrip_flat, total: serialization "
+   "succeeds and deserializing its result gives the instance back) and its lookup half for nested classes "
+   "(C07_roundtrip_lookup_partial), transparency of the process-wide memo table over every history of calls "
+   "(C07_cache_transparent, with witnesses that neither the flag nor the explicit mapper can be left out of the key), wrapper "
+   "construction rejects non-field keys; refutation witnesses where the full statement is false of the faithful model. The "
+   "nested-mapper lookup/store sites and the enum dispatch are regenerated from the AST of /repo on every run (Gen/MapperSites.v) "
+   "and the model is proved to perform exactly those (C07_model_follows_source_sites). Aggregated dicts, documents and "
+   "deserializations are compared with typedpy inside Coq on all mapper assignments of depth <= 3 (random stream), on an enumerated "
+   "lattice of sibling-name renames x field kinds x mapper placements, and on a falsy-value lattice; Serializer/Deserializer and "
+   "serialize()/deserialize_structure() entry points; with and without an earlier use of the class under another mapper.",
+   "Trusted: Coq kernel + vm_compute; Ser/Mappers.v hand-written (single inheritance, scalar values are opaque tokens copied "
+   "unchanged, no field types); site recogniser harness/genmods/mapper_sites.py (fails closed); harness generators; CPython. The "
+   "round trip of NESTED classes composed with deser_struct is not proved (false two levels down on the pinned code, C07-F1): it is "
+   "covered by the correspondence and the real == on every run. Multiple inheritance / mixins are not generated.",
+   "Coq proof (induction over mapper chains, nesting and call histories) + generated site tables + model/implementation "
+   "correspondence in vm_compute")
 _c("C09",
    "Coq theorems (Props/C09.v, closed under the global context): a model of Python's string-literal lexer and of each quoting "
    "discipline; for ALL strings, a literal emitted under discipline q lexes back to the string iff quote_ok q s (C09_lex_roundtrip, "
